@@ -1,6 +1,7 @@
 """Session drivers: turn a PRNG and a swarm configuration into a stream of
 operations, looking at the session's reference model between operations."""
 import copy
+import os
 from .gen import Gen, default_cfg, ALL_CHILD_KINDS, SERIES_KINDS
 from .spec import LOADS, KINDS
 
@@ -42,6 +43,8 @@ def swarm(prop, r, tier):
     cfg["inf_limits"] = R.chance(0.15)
     cfg["via_file"] = R.pick([0.0, 0.0, 0.25])
     cfg["collapse_inputs"] = prop in ("C12", "C16", "C14", "C15") and R.chance(0.06)
+    # the same numbers spelled as ints / numpy floats
+    cfg["arg_forms"] = R.chance(0.06)
     # nA..uA systems (everything scaled down): same laws, nanowatt losses
     cfg["micro"] = prop not in ("C03", "C17") and R.chance(0.07)
     # a random subset of kinds is disabled (swarm)
@@ -96,6 +99,11 @@ def swarm(prop, r, tier):
         cfg["names"] = R.pick(["plain", "fancy", "fancy"])
         if R.chance(0.05):
             cfg["names"] = "dot"  # names the dot language treats specially (separate class)
+    for f_ in os.environ.get("SIM_FORCE", "").split(","):
+        if "=" in f_:
+            cfg[f_.split("=")[0]] = f_.split("=")[1]
+        elif f_:
+            cfg[f_] = True  # development aid: force a run class on (never set by the registered commands)
     return cfg
 
 
